@@ -255,7 +255,7 @@ function prependPath(parentPath: string[], err: DecodeError): DecodeError {
 function deduplicateErrors(errors: DecodeError[]): DecodeError[] {
   const seen = new Set<string>();
   return errors.filter((err) => {
-    const key = JSON.stringify(err);
+    const key = JSON.stringify(err, (_k, v) => (typeof v === "bigint" ? `${v}n` : v));
     if (seen.has(key)) return false;
     seen.add(key);
     return true;
